@@ -99,6 +99,42 @@ LOCK_FACTS = {
                                 "delete: root write lock around the whole internalDelete"),
     "ctree.enumerateChildren.locks": (r"func \(t \*Tree\) enumerateChildren\(", [],
                                       "visit: runs under the read lock taken by queryInternal"),
+    # read-side node operations of the extended LTS (Model/CTreeConcX.lean, Props/C10Safe.lean)
+    "ctree.Tree.Value.locks": (r"func \(t \*Tree\) Value\(", ["defer RUnlock", "RLock"],
+                               "nRLock/nRUnlock (leaf node), rlockRoot/unlock (root, Api.rootValue): ONE read lock"),
+    "ctree.Tree.IsBranch.locks": (r"func \(t \*Tree\) IsBranch\(", ["defer RUnlock", "RLock"],
+                                  "nRLock/nRUnlock, Api.rootIsBranch: one read lock"),
+    "ctree.Tree.Children.locks": (r"func \(t \*Tree\) Children\(", ["defer RUnlock", "RLock"],
+                                  "nRLock/nRUnlock, Api.rootChildren: one read lock around isBranch() and the assertion"),
+    "ctree.isBranch.locks": (r"func \(t \*Tree\) isBranch\(", [],
+                             "rootCheck / body of a node operation: isBranch() takes no lock"),
+    "ctree.GetLeafValue.locks": (r"func \(t \*Tree\) GetLeafValue\(", [],
+                                 "GetLeafValue = Get (all locks released on return) then Value on the result"),
+    "ctree.Walk.locks": (r"func \(t \*Tree\) Walk\(", [], "Api.walk: walkInternal(nil) only"),
+    "ctree.WalkSorted.locks": (r"func \(t \*Tree\) WalkSorted\(", [], "Api.walkSorted: walkInternalSorted(nil) only"),
+}
+
+# fact -> (function header regex, text that must occur in the normalised body, texts that must not
+# occur, the LTS element it justifies): no method re-acquires a read lock it already holds
+# (theorem C10Safe.no_recursive_rlock_node; C10Safe.deadlock_with_recursive_rlock is what happens otherwise)
+NESTED_FACTS = {
+    "ctree.Tree.Value.no_nested_rlock": (r"func \(t \*Tree\) Value\(", ["if t.isBranch() { return nil } return t.leafBranch"],
+                                         [".IsBranch()", ".Children()", ".Value()", ".Get("],
+                                         "Variant.rv = false: Value calls the lock-free isBranch (no transition nRLock2)"),
+    "ctree.Tree.Children.no_nested_rlock": (r"func \(t \*Tree\) Children\(",
+                                            ["if t.isBranch() { ret := make(branch) for k, v := range t.leafBranch.(branch) {"],
+                                            [".IsBranch()", ".Children()", ".Value()", ".Get("],
+                                            "rootCheck then getHit under one read lock: the unchecked assertion follows isBranch() "
+                                            "in the same critical section (C10Safe.never_panics, panic condition badAssert)"),
+    "ctree.Tree.IsBranch.no_nested_rlock": (r"func \(t \*Tree\) IsBranch\(", ["return t.isBranch()"],
+                                            [".IsBranch()", ".Children()", ".Value()", ".Get("],
+                                            "one read lock, lock-free body"),
+    "ctree.isBranch.comma_ok": (r"func \(t \*Tree\) isBranch\(", ["_, ok := t.leafBranch.(branch) return ok"], [],
+                                "isBranch never panics (comma-ok assertion)"),
+    "ctree.walkInternalSorted.lookup_under_lock": (r"func \(t \*Tree\) walkInternalSorted\(",
+                                                  ["if err := b[name].walkInternalSorted(append(p, name), f); err != nil {"],
+                                                  ["t.mu.RUnlock() if"],
+                                                  "panic condition childGone: the second lookup b[name] happens while t is still read locked"),
 }
 
 
@@ -118,6 +154,15 @@ def lock_facts(ctx, cfg):
             bad += 1
             ctx.problems.append(("fact", "fact %s changed: the LTS assumes %r (%s); ctree/tree.go now has %r"
                                  % (name, want, where, have), None))
+    for name, (hdr, must, mustnot, where) in sorted(NESTED_FACTS.items()):
+        body = _func_body(src, hdr)
+        norm = re.sub(r"\s+", " ", body or "")
+        ok = body is not None and all(m in norm for m in must) and not any(m in norm for m in mustnot)
+        ctx.obligations.append(("fact " + name, ok, where if ok else "body is now: %s" % norm[:300]))
+        if not ok:
+            bad += 1
+            ctx.problems.append(("fact", "fact %s changed: the extended LTS (Props/C10Safe.lean) assumes %s; ctree/tree.go now has: %s"
+                                 % (name, where, norm[:300]), None))
     # the re-check after the upgrade (slowAdd): `br := b[path[0]]` guarded by `if br == nil`
     body = _func_body(src, r"func \(t \*Tree\) slowAdd\(") or ""
     norm = re.sub(r"\s+", " ", body)
@@ -147,7 +192,8 @@ def lock_facts(ctx, cfg):
                              "internalDelete reads t.leafBranch of every non-root node between t.mu.RLock() and t.mu.RUnlock() "
                              "(root flag true only in DeleteConditional/WalkDeleted); without it Leaf.Update through a retained "
                              "handle races with deletes (C10.race_witness_prefix)", None))
-    vcheck.log("  facts: %d lock-pattern facts checked against ctree/tree.go, %d changed" % (len(LOCK_FACTS) + 2, bad))
+    vcheck.log("  facts: %d lock-pattern facts checked against ctree/tree.go, %d changed"
+               % (len(LOCK_FACTS) + len(NESTED_FACTS) + 2, bad))
 
 
 # ---------------------------------------------------------------- -race stress
